@@ -828,25 +828,33 @@ def judge_single(sc: Scenario, o, ident=None):
     if not F['stop_evt']:
         v.append(('C08_StopEvtSet', 'stop_evt is not set after run() ended', {'kind': 'stop_evt'}))
     # return vs raise, announcement: judged when there is one reason of ending (or all reasons agree)
-    kinds = set()
+    kinds, kseq = set(), []
     for c in causes:
         if c[0] == 'fault':
-            kinds.add({'raise': 'error', 'exit': 'clean', 'int': 'int'}[c[2]])
+            kseq.append({'raise': 'error', 'exit': 'clean', 'int': 'int'}[c[2]])
         elif c[0] == 'msg':
-            kinds.add('prop_' + c[1])
+            kseq.append('prop_' + c[1])
         else:
-            kinds.add('clean')
+            kseq.append('clean')
+    kinds = set(kseq)
     if any(x not in OWN_EXCEPTIONS for x in F.get('inflight', ())):
         kinds.add('foreign')         # the code under test raised something nobody injected: the reasons of ending do not agree
+    # a run that was ending cleanly (exit(), deadline, stop, an obeyed clean exit) and then hits an exception in a later stage
+    # (shutdown(), fini) ends by that error: "an exception at any stage ... run() raises for errors"
+    ann_kd = None
+    if len(kinds) > 1 and 'foreign' not in kinds and kseq[-1] == 'error' and all(k in ('clean', 'prop_clean') for k in kseq[:-1]):
+        kinds = {'error'}
+        if causes[-1][1] == 'fini':
+            ann_kd = 'clean'         # the exit message left before fini() failed: it says what was known then
     if len(kinds) == 1:
         kd = next(iter(kinds))
         if kd == 'error' and F['result'] != 'raised':
-            v.append(('C08_ReturnVsRaise', f'run() returned normally although {causes[0]} raised', {'kind': 'return_vs_raise', 'ending': 'error'}))
+            v.append(('C08_ReturnVsRaise', f'run() returned normally although {causes[-1]} raised', {'kind': 'return_vs_raise', 'ending': 'error'}))
         if kd in ('clean', 'prop_clean') and F['result'] != 'returned':
             v.append(('C08_ReturnVsRaise', f'run() raised {F["exc"]} on a clean exit ({causes[0]})', {'kind': 'return_vs_raise', 'ending': 'clean'}))
         # announcement (only for filters that got as far as setup(): before that there may be no MQ)
         if 'setup' in F['calls'] and kd in ('error', 'clean', 'prop_clean', 'prop_error'):
-            k2 = 'error' if kd in ('error', 'prop_error') else 'clean'
+            k2 = 'error' if (ann_kd or kd) in ('error', 'prop_error') else 'clean'
             want = {('up', k2), ('down', k2)} if has(sc.cfg['prop'], k2) else set()
             got = set(map(tuple, F['announced']))
             if got != want:
